@@ -14,13 +14,14 @@ from harness.lib import producer_gen as G
 
 COMPONENTS = ["producer"]
 MONITORS = {
-    "C01": ["c01-once", "c01-acked", "c01-payloads", "c01-resolved"],
+    "C01": ["c01-once", "c01-acked", "c01-acks0", "c01-payloads", "c01-resolved"],
     "C09": ["c09-order", "c09-onebatch", "c09-retry", "c09-attempts", "c09-geometric"],
     "C19": ["c19-accounting", "c19-dispatch", "c19-cancel", "c19-stop"],
 }
 WHAT = {
     "c01-once": "a send Deferred fired more than once",
     "c01-acked": "a send Deferred succeeded without an acknowledgement for a request carrying its messages (or with an exception as value)",
+    "c01-acks0": "with req_acks=0 a send failed with NoResponseError although the request was handed over",
     "c01-payloads": "a produce payload is not made of whole, distinct sends of its topic",
     "c01-resolved": "a batch resolved while one of its sends had not fired",
     "c09-order": "per-partition submission order violated in a produce request",
@@ -229,6 +230,102 @@ def random_batch(pid, seed, n, tally, exhaustive_depth=0):
         check_batch(pid, chunk, tally)
 
 
+# ---- bounded-exhaustive enumeration (thorough tier): every event sequence up to a depth over a small alphabet
+EXH_CFGS = [
+    dict(acks=1, max_attempts=2, retry_interval="1/4", batch_send=False, n=1, b=1, t=None, partitioner="rr", codec=0, api_versions=0),
+    dict(acks=1, max_attempts=2, retry_interval="1/4", batch_send=True, n=2, b=0, t="1", partitioner="rr", codec=0, api_versions=0),
+    dict(acks=0, max_attempts=1, retry_interval="1/4", batch_send=True, n=0, b=15, t="1", partitioner="rr", codec=0, api_versions=0),
+    dict(acks=-1, max_attempts=3, retry_interval="0", batch_send=True, n=3, b=0, t=None, partitioner="hashed", codec=0, api_versions=0),
+]
+
+
+def exh_options(real, events, nsend):
+    """the alphabet enabled after `events` (looked up in the real objects' state)"""
+    opts = []
+    sent = sum(1 for e in events if e[0] == "send")
+    if sent < nsend:
+        opts.append([["send", sent, sent % 2, "6b" if real.cfg["partitioner"] == "hashed" else None, [10]]])
+    for sid in real.outstanding():
+        opts.append([["cancel", sid]])
+    pend = real.pending_requests()
+    for rid, kind, args in pend:
+        if kind == "meta":
+            t = D.topic_index(args[0])
+            opts.append([["metaset", t, 0, [0, 1]], ["metadone", rid, ["ok"]]])
+            opts.append([["metadone", rid, ["ok"]]])
+            opts.append([["metadone", rid, ["err", "ua"]]])
+        else:
+            tps = [(D.topic_index(p.topic), p.partition) for p in args]
+            opts.append([["prodone", rid, ["resp", [[t, p, 0, 5] for t, p in tps]]]])
+            opts.append([["prodone", rid, ["resp", [[t, p, 6 if i == len(tps) - 1 else 0, 5] for i, (t, p) in enumerate(tps)]]]])
+            opts.append([["prodone", rid, ["err", "lu"]]])
+            opts.append([["prodone", rid, ["fail", [], [[t, p, "cc", True] for t, p in tps]]]])
+    timers = real.pending_timers()
+    if timers:
+        due = min(t for _tid, t in timers) - real.client.reactor.seconds()
+        from fractions import Fraction
+
+        steps = int(Fraction(due) / Fraction(1, 16)) + 1
+        opts.append([["advance", "%d/16" % max(steps, 1)]])
+    if not any(e[0] == "stop" for e in events):
+        outs = {}
+        for rid, kind, args in pend:
+            if kind == "meta":
+                outs[str(rid)] = ["ok"]
+            else:
+                outs[str(rid)] = ["fail", [], [[D.topic_index(p.topic), p.partition, "tc", True] for p in args]]
+        opts.append([["stop", bool(outs), outs]])
+        if pend:
+            opts.append([["stop", False, {}]])
+    return opts
+
+
+def exhaustive(pid, cfg, depth, nsend, prefix_choices, tally, cap=None):
+    """DFS over all option sequences of length `depth` that start with `prefix_choices` (indices)"""
+    batch = []
+
+    def run_prefix(events):
+        real = D.RealRun(cfg)
+        for ev in events:
+            real.apply(ev)
+        return real
+
+    def rec(events, d, forced):
+        real = run_prefix(events)
+        opts = exh_options(real, events, nsend)
+        if d == 0 or not opts:
+            batch.append(({"cfg": cfg, "events": events}, real))
+            if len(batch) >= 400:
+                check_batch(pid, batch, tally)
+                del batch[:]
+            return
+        if forced:
+            i = forced[0]
+            if i < len(opts):
+                rec(events + opts[i], d - 1, forced[1:])
+            return
+        for o in opts:
+            if cap is not None and tally.evaluations + len(batch) >= cap:
+                return
+            rec(events + o, d - 1, [])
+
+    rec([["metaset", 0, 0, [0, 1]]] if cfg.get("meta_ready", True) else [], depth, list(prefix_choices))
+    check_batch(pid, batch, tally)
+
+
+def _exh_worker(args):
+    pid, ci, first, depth, nsend, repo = args
+    import sys
+
+    if repo not in sys.path:
+        sys.path.insert(0, repo)
+    t = Tally()
+    cfg = dict(EXH_CFGS[ci])
+    exhaustive(pid, cfg, depth, nsend, first, t)
+    t.hist["exhaustive-sequences"] += t.evaluations
+    return t
+
+
 def _worker(args):
     pid, seed, n, repo = args
     import sys
@@ -257,6 +354,15 @@ def corpus(pid, res):
     runs = []
     for fn in sorted(glob.glob(os.path.join(CORPUS, "*.json"))):
         data = json.load(open(fn))
+        if data.get("fullstack"):
+            from harness.lib import producer_fullstack as FS
+
+            data.pop("note", None)
+            for f in FS.check(FS.run_script(data), pid):
+                f["scenario"] = data
+                res.monitor_failures.append(f)
+            res.evaluations += 1
+            continue
         scn = {"cfg": data["cfg"], "events": data["events"]}
         runs.append((scn, D.run_real(scn)))
     t = Tally()
@@ -275,6 +381,11 @@ def scripted(ctx, res, pid, n_quick, n_thorough):
         with multiprocessing.Pool(workers) as pool:
             for t in pool.map(_worker, [(pid, s, per, core.REPO) for s in seeds]):
                 merge(res, t)
+            # bounded-exhaustive: all sequences of 7 choices over the small alphabet, <= 3 sends, with and
+            # without metadata in place; sharded by configuration and first two choices
+            jobs = [(pid, ci, [a, b], 7, 3, core.REPO) for ci in range(len(EXH_CFGS)) for a in range(3) for b in range(6)]
+            for t in pool.map(_exh_worker, jobs, chunksize=1):
+                merge(res, t)
     else:
         t = Tally()
         random_batch(pid, ctx.rng.randrange(1 << 30), n_quick, t)
@@ -282,7 +393,7 @@ def scripted(ctx, res, pid, n_quick, n_thorough):
 
 
 def run(ctx, res, pid):
-    scripted(ctx, res, pid, n_quick=2500, n_thorough=64000)
+    scripted(ctx, res, pid, n_quick=6000, n_thorough=96000)
     try:
         from harness.lib import producer_fullstack as FS
     except ImportError:
